@@ -265,11 +265,10 @@ static var Range_Iter_Init(var self) {
 static var Range_Iter_Last(var self) {
   struct Range* r = self;
   struct Int* i = r->value;
-  if (r->step == 0) { return Terminal; }
-  if (r->step  > 0) { i->val = r->stop-1; }
-  if (r->step  < 0) { i->val = r->start; }
-  if (r->step  > 0 and i->val < r->start) { return Terminal; }
-  if (r->step  < 0 and i->val >= r->stop) { return Terminal; }
+  size_t n = len(self);
+  if (n is 0) { return Terminal; }
+  if (r->step  > 0) { i->val = r->start  + r->step * (int64_t)(n-1); }
+  if (r->step  < 0) { i->val = r->stop-1 + r->step * (int64_t)(n-1); }
   return i;
 }
 
@@ -300,6 +299,7 @@ static var Range_Iter_Type(var self) {
 static size_t Range_Len(var self) {
   struct Range* r = self;
   if (r->step == 0) { return 0; }
+  if (r->stop <= r->start) { return 0; }
   if (r->step  > 0) { return ((r->stop-1) - r->start) /  r->step + 1; }
   if (r->step  < 0) { return ((r->stop-1) - r->start) / -r->step + 1; }
   return 0;
